@@ -11,7 +11,12 @@ PROP = {'rule': 'history / historyLong: rapid state machine that plays the sched
          'Coscheduling.Permit/Unreserve/AfterPostFilter/PostBind with captured informer handlers (one group of 1-3 gangs, <=8 pods, '
          'no lag except bind update vs PostBind and plain updates); same non-trivial rule. concurrent (-race): a pre-drawn informer '
          'script (updates, resyncs, deletes) races a pre-drawn scheduling script (Permit/Unreserve/PostBind); non-trivial = both '
-         'goroutines executed >=3 operations. distinct = FNV-64 of the configuration and the full history.',
+         'goroutines executed >=3 operations. rounds: the history machine with every scheduling cycle driven as koord-scheduler '
+         'drives a gang group (NextPod or queue pop -> BeforePreFilter opening the round context -> Permit | AfterPostFilter | '
+         "Unreserve; NextPod's map-order choice is drawn by the harness and recorded in the round context, the real NextPod is "
+         'called when it has 0 or 1 candidates), <=12 pods, gangs mostly complete; same non-trivial rule; classes round:* show '
+         'first / later failing members of a round and strict-member-fails-after-nonstrict-trigger. distinct = FNV-64 of the '
+         'configuration and the full history.',
  'assumptions': ['Permit / Reserve failure / AfterPostFilter are only issued for pods whose informer add has reached the gang cache '
                  '(the scheduler queue is fed by the same informer) and that are unbound and not in another cycle',
                  'all gangs of a group list the same group; all pods of an annotation gang carry the same gang annotations; pod names are '
@@ -31,9 +36,10 @@ PROP = {'rule': 'history / historyLong: rapid state machine that plays the sched
                  'unsynchronised read of gang.WaitTime in Permit; it cannot change a release decision)'],
  'units': [{'name': 'core',
             'pkg': 'pkg/scheduler/plugins/coscheduling/core',
-            'files': ['C04/c04_gang_test.go'],
+            'files': ['C04/c04_gang_test.go', 'C04/c04_rounds_test.go'],
             'tests': [{'run': 'TestVerifC04History', 'quick': 8000, 'thorough': 50000, 'steps': 40, 'quick_shards': 2,
                        'shrinktime': '15s'},
+                      {'run': 'TestVerifC04Rounds', 'quick': 6000, 'thorough': 30000, 'steps': 50, 'shrinktime': '15s'},
                       {'run': 'TestVerifC04HistoryLong', 'thorough': 10000, 'steps': 120, 'thorough_only': True, 'shrinktime': '20s'},
                       {'run': 'TestVerifC04Concurrent', 'thorough': 3000, 'race': True, 'thorough_only': True, 'shards': 4,
                        'shrinktime': '20s'}]},
